@@ -17,6 +17,15 @@ the instant the function FINISHED.  A foreground refresh (`background=False`) is
 call's (`return await task`: "the caller waited for the refresh: give it the fresh result, the old one may be past its
 ttl by now" — the repair of D40; a refresh that raises still propagates = D19).
 
+One recalculation of a key at a time (the repair of D44): the decorator keeps `recalculations: dict[cache key -> Task]` of
+the refresh tasks it created that are still running.  While one is in flight (`inflight ≠ []`; with `background=False` the
+refresh is awaited inside the call and never in flight between operations) a call that still finds a stored result is
+answered with it and starts nothing — it does not even try the lock key, which lives `early_ttl` only and is outlived by a
+slow recalculation — and a call that finds NOTHING stored (the result reached its ttl meanwhile) does not execute the
+function a second time: it waits for the running recalculation (`return await asyncio.shield(recalculation)`) and is handed
+its result / its exception when it completes (`Res.joined`, `joinedAnswer`).  Hence at most one recalculation of the key is
+ever in flight, unconditionally.
+
 Always used with an explicit `early_ttl` (the default `ttl * 0.33` is a float product outside this
 model).  Boundary mirrored from the code, not judged: at *exactly* `early_ttl` the stored result is
 still served without a refresh (`early_expire_at >= now`).
@@ -40,40 +49,47 @@ def init : St := { t := TtlMap.init, nexec := 0, inflight := [] }
 def save (c : Cfg) (t : TtlMap) (id : Nat) : TtlMap :=
   t.write kMain (pack3 t.now id (t.now + c.early)) (some c.ttl)
 
+/-- `_get_result_for_early` run inside the call, from the moment the function has finished (`t2`: the store at that
+moment): `cond_result = condition(result, …); early_expire_at = now + early_ttl; backend.set(…)` on success, `raise _exc`
+on failure, and — for a refresh (`unlock=True`) — `finally: asyncio.create_task(backend.delete(key + ":lock"))`.
+The caller is handed what `_get_result_for_early` returns / raises (`Outcome.result`). -/
+def produce (c : Cfg) (s : St) (t2 : TtlMap) (o : Outcome) (refresh : Bool) : St × CallOut :=
+  let id := s.nexec
+  let fin := fun (t : TtlMap) => if refresh then t.remove kAux else t
+  match o with
+  | .ok => ({ s with t := fin (save c t2 id), nexec := id + 1 }, ⟨.fresh t2.now id, true, refresh⟩)
+  | .rejected => ({ s with t := fin t2, nexec := id + 1 }, ⟨.fresh t2.now id, true, refresh⟩)   -- `cond_result` False: nothing stored
+  | .storeFails _ l => ({ s with t := fin t2, nexec := id + 1 }, ⟨.storeErr l, true, refresh⟩)  -- `condition(…)` / `backend.set` raises
+  | _ => ({ s with t := fin t2, nexec := id + 1 }, ⟨.raised o, true, refresh⟩)                  -- `raise _exc`; nothing stored
+
 /-- `_wrap` -/
 def call (c : Cfg) (s : St) (o : Outcome) (d : Nat) : St × CallOut :=
-  let id := s.nexec
   -- `cached = await backend.get(_cache_key, default=_empty)`   (at the start of the call)
   match cached3 s.t with
   | none =>
-    -- `if cached is _empty: return await _get_result_for_early(*args_to_call)`   (unlock=False);
-    -- `result = await func(*args, **kwargs)` takes `d` ticks, the deadline is stamped and the result stored afterwards
-    let t2 := advance s.t d
-    match o with
-    | .ok => ({ s with t := save c t2 id, nexec := id + 1 }, ⟨.fresh t2.now id, true, false⟩)
-    | .rejected => ({ s with t := t2, nexec := id + 1 }, ⟨.fresh t2.now id, true, false⟩)   -- `cond_result` False: nothing stored
-    | .storeFails _ l => ({ s with t := t2, nexec := id + 1 }, ⟨.storeErr l, true, false⟩)  -- `condition(…)` / `backend.set` raises
-    | _ => ({ s with t := t2, nexec := id + 1 }, ⟨.raised o, true, false⟩)     -- `raise _exc`; nothing stored
+    match s.inflight with
+    -- `recalculation = recalculations.get(_cache_key); if recalculation is not None: return await asyncio.shield(recalculation)`
+    | (rid, _) :: _ => (s, ⟨.joined rid, false, false⟩)
+    -- `return await _get_result_for_early(*args_to_call)`   (unlock=False); `result = await func(*args, **kwargs)` takes
+    -- `d` ticks, the deadline is stamped and the result stored afterwards
+    | [] => produce c s (advance s.t d) o false
   | some (stamp, id0, inner) =>
     -- `if early_expire_at >= datetime.now(timezone.utc): return return_or_raise(result)`
     if s.t.now ≤ inner then (s, ⟨.stored stamp id0, false, false⟩)
+    -- `if _cache_key in recalculations: return return_or_raise(result)`
+    else if s.inflight ≠ [] then (s, ⟨.stored stamp id0, false, false⟩)
     -- `if not await backend.set(lock_key, "1", expire=_early_ttl, exist=False): return …(result)`
     else if (s.t.find kAux).isSome then (s, ⟨.stored stamp id0, false, false⟩)
     else
       let t1 := s.t.write kAux (.tok 1) (some c.early)
-      -- `task = asyncio.create_task(_get_result_for_early(*args_to_call, unlock=True))`
+      -- `task = asyncio.create_task(_get_result_for_early(*args_to_call, unlock=True)); recalculations[_cache_key] = task`
       if c.bg then
-        ({ t := t1, nexec := id + 1, inflight := s.inflight ++ [(id, s.t.now)] },
+        ({ t := t1, nexec := s.nexec + 1, inflight := s.inflight ++ [(s.nexec, s.t.now)] },
          ⟨.stored stamp id0, false, true⟩)
       else
         -- `if not background: return await task` – the refresh takes `d` ticks; its result is the call's answer, its
         -- exception propagates out of `await task` (D19); its `finally` deletes the lock either way
-        let t2 := advance t1 d
-        match o with
-        | .ok => ({ s with t := (save c t2 id).remove kAux, nexec := id + 1 }, ⟨.fresh t2.now id, true, true⟩)
-        | .rejected => ({ s with t := t2.remove kAux, nexec := id + 1 }, ⟨.fresh t2.now id, true, true⟩)
-        | .storeFails _ l => ({ s with t := t2.remove kAux, nexec := id + 1 }, ⟨.storeErr l, true, true⟩)
-        | _ => ({ s with t := t2.remove kAux, nexec := id + 1 }, ⟨.raised o, true, true⟩)
+        produce c s (advance t1 d) o true
 
 /-- a background `_get_result_for_early(..., unlock=True)` completes: store on success, then
 `finally: asyncio.create_task(backend.delete(key + ":lock"))` — whoever holds the lock now -/
@@ -85,6 +101,12 @@ def done (c : Cfg) (s : St) (i : Nat) (o : Outcome) : St × DoneRes :=
     | .ok => ({ s with t := (save c s.t id).remove kAux, inflight := s.inflight.eraseIdx i }, .stored)
     | .rejected => ({ s with t := s.t.remove kAux, inflight := s.inflight.eraseIdx i }, .skipped)
     | _ => ({ s with t := s.t.remove kAux, inflight := s.inflight.eraseIdx i }, .failed)
+
+/-- what the callers that joined the i-th recalculation in flight (`Res.joined`) are handed when it completes:
+`return await asyncio.shield(recalculation)` = what `_get_result_for_early` returns / raises — its fresh result stamped with
+the instant it completed (stored, or turned down by the condition), its exception, or the exception of its store step -/
+def joinedAnswer (s : St) (i : Nat) (o : Outcome) : Option Res :=
+  (s.inflight[i]?).map fun p => o.result s.t.now p.1
 
 def step (c : Cfg) (s : St) : DOp → St × Ans
   | .call o d => let r := call c s o d; (r.1, .call r.2)
